@@ -3,6 +3,7 @@
 package slip
 
 import (
+	"sort"
 	"strconv"
 )
 
@@ -99,19 +100,33 @@ func (obj HashTable) Eval(s *Scope, depth int) Object {
 // LoadForm returns a form that can be evaluated to create the object.
 func (obj HashTable) LoadForm() Object {
 	tsym := Symbol("table")
+	sets := make(List, 0, len(obj))
+	for k, v := range obj {
+		sets = append(sets, List{Symbol("setf"), List{Symbol("gethash"), quoteData(k), tsym}, quoteData(v)})
+	}
+	// A stable order makes the form, and a snapshot that includes it, reproducible.
+	sort.Slice(sets, func(i, j int) bool { return ObjectString(sets[i]) < ObjectString(sets[j]) })
 	form := List{
 		Symbol("let"),
 		List{List{tsym, List{Symbol("make-hash-table")}}},
 	}
-	for k, v := range obj {
-		switch k.(type) {
-		case Symbol:
-			form = append(form, List{Symbol("setf"), List{Symbol("gethash"), List{quoteSymbol, k}, tsym}, v})
-		case String, Number, nil:
-			form = append(form, List{Symbol("setf"), List{Symbol("gethash"), k, tsym}, v})
+	form = append(form, sets...)
+
+	return append(form, tsym)
+}
+
+// quoteData quotes symbols and lists which would otherwise be evaluated as a
+// variable or a function call when the form they are placed in is evaluated.
+func quoteData(v Object) Object {
+	switch tv := v.(type) {
+	case Symbol:
+		if 0 < len(tv) && tv[0] != ':' {
+			return List{quoteSymbol, tv}
+		}
+	case List:
+		if 0 < len(tv) {
+			return List{quoteSymbol, tv}
 		}
 	}
-	form = append(form, Symbol("table"))
-
-	return form
+	return v
 }
